@@ -13,7 +13,8 @@ BASE = dict(
     AUTHLISTS='{{}}', HANDSHAKES='{"ok"}', CAPS2='{{}}', LOGAUTH='{FALSE}', LOGGERS='{"capture"}', FALLBACK='{FALSE}',
     DEV_ImplicitDot='FALSE', DEV_NoRsetAfterDataReject='FALSE', DEV_ContinueAfterRsetFail='FALSE',
     DEV_LeakOnDialError='FALSE', DEV_QuitFailureLeavesConn='FALSE', DEV_NoDeadlineInDial='FALSE',
-    DEV_NoopBeforeDeadline='FALSE', DEV_WindowStaysOpen='FALSE', DEV_FallbackInClear='FALSE')
+    DEV_NoopBeforeDeadline='FALSE', DEV_WindowStaysOpen='FALSE', DEV_FallbackInClear='FALSE',
+    DEV_DialKeepsConnection='FALSE', REDIAL='{FALSE}')
 
 
 def cfg(**kw):
@@ -175,6 +176,9 @@ STAGES = {
             ('dialandsend-mandatory', 'Session', cfg(OP='"DialAndSend"', N='1', MAXR='1', BUDGET='1', CAPSETS='{{}}',
                 POLICIES='{"mandatory"}', STARTTLSADV='BOOLEAN', HANDSHAKES='{"ok", "untrusted"}',
                 AUTHTYPES='{"NOAUTH", "PLAIN"}', AUTHLISTS='{{"PLAIN"}}')),
+            # the TLS policy is changed between two dials of the same Client
+            ('policy-change-redial', 'Session', cfg(OP='"Send"', N='1', MAXR='1', BUDGET='1', CAPSETS='{{}}', CLASSES='{"p5"}', REDIAL='{TRUE}',
+                POLICIES='{"mandatory", "opportunistic", "none"}', STARTTLSADV='BOOLEAN', HANDSHAKES='{"ok", "untrusted"}')),
             # implicit TLS (WithSSLPort) over real TCP on a loopback address: TLS from the first byte, port fallback
             ('implicit-tls', 'Session', cfg(OP='"Dial"', N='1', MAXR='1', BUDGET='1', CAPSETS='{{}}', CLASSES='{"refuse"}',
                 POLICIES='{"implicit"}', FALLBACK='BOOLEAN', HANDSHAKES='{"ok", "wrongname", "untrusted"}', STARTTLSADV='BOOLEAN',
@@ -237,7 +241,9 @@ SENSITIVITY = {
     'C03': [('DEV_ImplicitDot', 'Session', cfg(RENDERKINDS='{"failMid"}', CAPSETS='{{}}', BUDGET='0', DEV_ImplicitDot='TRUE'), 'NoViolation')],
     'C04': [('DEV_NoRsetAfterDataReject', 'Session', cfg(CAPSETS='{{}}', BUDGET='1', DEV_NoRsetAfterDataReject='TRUE'), 'NoViolation'),
             ('DEV_ContinueAfterRsetFail', 'Session', cfg(CAPSETS='{{}}', BUDGET='2', DEV_ContinueAfterRsetFail='TRUE'), 'NoViolation')],
-    'C07': [('DEV_FallbackInClear', 'Session', cfg(OP='"Dial"', N='1', MAXR='1', BUDGET='1', CAPSETS='{{}}', CLASSES='{"refuse"}',
+    'C07': [('DEV_DialKeepsConnection', 'Session', cfg(OP='"Send"', N='1', MAXR='1', BUDGET='0', CAPSETS='{{}}', REDIAL='{TRUE}',
+                                                       POLICIES='{"mandatory"}', STARTTLSADV='{TRUE}', DEV_DialKeepsConnection='TRUE'), 'NoViolation'),
+            ('DEV_FallbackInClear', 'Session', cfg(OP='"Dial"', N='1', MAXR='1', BUDGET='1', CAPSETS='{{}}', CLASSES='{"refuse"}',
                                                    POLICIES='{"implicit"}', FALLBACK='{TRUE}', DEV_FallbackInClear='TRUE'), 'NoViolation')],
     'C19': [('DEV_LeakOnDialError', 'Session', cfg(OP='"Dial"', N='1', MAXR='1', BUDGET='1', CAPSETS='{{}}', DEV_LeakOnDialError='TRUE'), 'NoViolation'),
             ('DEV_QuitFailureLeavesConn', 'Session', cfg(OP='"DialAndSend"', N='1', MAXR='1', BUDGET='1', CAPSETS='{{}}',
